@@ -21,7 +21,7 @@ type fsRoot struct {
 func newFsRoot(name string) *fsRoot {
 	bin := os.Getenv("HX_DHCPC")
 	if bin == "" {
-		bin = "/verif/.build/psa-dhcpc"
+		bin = BuildDir() + "/psa-dhcpc"
 	}
 	d := filepath.Join(OutDir(), name)
 	os.RemoveAll(d)
